@@ -1,6 +1,7 @@
 import ThruVerif.Props.C01
 import ThruVerif.Props.C05
 import ThruVerif.Proofs.Resume
+import ThruVerif.Model.SendFile
 /-!
 # C04 — Resuming after an interruption at any point ends in the identical tree
 
@@ -84,5 +85,17 @@ theorem C04_finished_work_not_resent (c : Cfg) (total : Nat) (b : List Bool) (go
 theorem C04_report_is_loaded_bitmap (total : Nat) (b : List Bool) (good : Nat → Bool) (hashed hashOn : Bool) :
     (recvInfo total b good hashed hashOn).bitmap = b ∧ (recvInfo total b good hashed hashOn).total = total := by
   unfold recvInfo; split <;> exact ⟨rfl, rfl⟩
+
+/-- **C04_unrecorded_chunks_travel.** Whatever the receiver reports (any bitmap, any last-verified chunk, hash known or not, true or
+not) and whatever the sender's options: a chunk the report does not mark is never skipped. The receiver counts a file complete when
+every unmarked chunk has arrived, so this is what lets the resumed run end. -/
+theorem C04_unrecorded_chunks_travel (c : Cfg) (info : Info) (i : Nat) (hi : i < info.total) (hb : bit info.bitmap i = false) :
+    sent info (plan c info) i = true := by
+  simp [sent, skipped, hb, hi]
+
+/-- the plan handed to the dispatch machine of `Model/SendFile` skips exactly the chunks `skipped` says (the two models compose) -/
+theorem C04_plan_is_sendfile_skip (c : Cfg) (info : Info) (i : Nat) :
+    TV.SendFile.skip (some { bitmap := info.bitmap, forceFrom := (plan c info).forceFrom }) i = skipped info (plan c info) i := by
+  simp [TV.SendFile.skip, skipped, bit]
 
 end TV.Resume
